@@ -180,6 +180,13 @@ class Cleanup:
                 return
             raise
 
+        if not os.path.isabs(container_dir):
+            # A link in the relative form (../apps/<container>) is relative to
+            # the cleanup directory, not to the working directory.
+            container_dir = os.path.normpath(
+                os.path.join(self.tm_env.cleanup_dir, container_dir)
+            )
+
         _LOGGER.info('Cleanup: %s => %s', instance, container_dir)
         if os.path.exists(container_dir):
             with lc.LogContext(_LOGGER, os.path.basename(container_dir),
